@@ -212,7 +212,9 @@ SPEC = dict(
                 "items still to come in every state, given the inputs' hints do) for map, filter, filter_map, inspect, "
                 "take_while, enumerate, skip, skip_while, take, fuse, flat_map, flatten, filter_map_async, flat_map_stream, "
                 "flatten_stream, chain, either, zip, zip_longest, cross_singleton, iter/once/empty/repeat/pending/from_fn/"
-                "poll_fn/stream/stream_ready sources, and the draining futures collect/for_each/accumulate_all (as folds). "
+                "poll_fn/stream/stream_compat/stream_ready sources (fromFn_fused = Stream over a FusedStream; pending/repeat are "
+                "vacuously fused, repeat_sizeHint: no upper bound, every lower bound met), and the draining futures "
+                "collect/for_each/accumulate_all (as folds: collect_refines, forEach_refines, accumulateAll_refines). "
                 "Tie: the harness implements a scripted Pull / Stream / Future, drives each real dfir_pipes combinator poll "
                 "by poll (answer + size_hint after every poll, closure logs) and the same op lines run through the compiled "
                 "model; std-iterator / fused / bracket oracles are evaluated on the real code. The match tables of Zip, "
@@ -225,7 +227,9 @@ SPEC = dict(
                 "modelled as the list / script / (pendings, output) they produce; each theorem is about one combinator over "
                 "scripted sources; pipelines are modelled by feeding a combinator the answer trace of another (a pull is used "
                 "through its answers and hints only) with two showcase composition theorems; send_sink/send_push/next "
-                "are not modelled; harness/differ are our code."),
+                "are not modelled; the size-hint theorems take the inputs' hints as functions of the remaining script (HintOk), so for "
+                "pipelines the bracket of the inner combinator's hint is checked by the oracle on the real code, not composed in Lean; "
+                "harness/differ are our code."),
     trusted_base=["Pin, Context merging, Toggle type-level CanPend/CanEnd bookkeeping and Meta are erased",
                   "inner iterators / streams / futures are modelled by the finite list / script they produce",
                   "usize arithmetic modelled on Nat (no overflow)"],
